@@ -97,6 +97,10 @@ func genC15(e *emitter, tier string, seed int64) {
 		{"bad-regex-through-use", []scriptSrc{{"a.p", "p(\"a\")\nuse(\"b.p\")\n"}, {"b.p", "if true {\n  replace(message, \"(\", \"x\")\n}\n"}}, 0},
 		// an engine that keeps compiled queries: the answer for one document owes nothing to earlier ones
 		{"xml-group", []scriptSrc{{"a.p", "xml(message, \"(//b)[1]\", out)\nxml(message, \"(//b)[last()]\", out2)\nxml(message, \"(/a/b)[2]\", out3)\np(get_key(out), get_key(out2), get_key(out3))\n"}}, 0},
+		// a builtin's scratch storage is empty at every call, also after a call that failed half way
+		{"strfmt-argument-fails", []scriptSrc{{"a.p", "l = [1]\nstrfmt(out, \"%v-%v\", message, l[5])\np(\"never\")\n"}}, 0},
+		{"strfmt-one-argument", []scriptSrc{{"a.p", "strfmt(out, \"<%v>\", message)\nprintf(\"%v|\", f1)\np(get_key(out))\n"}}, 0},
+		{"literal-mutation", []scriptSrc{{"a.p", "a = [\"x\", \"y\"]\np(a)\na[1] = \"changed\"\nm = {\"k\": [[0, 1], 2]}\np(m)\nm[\"k\"][0][1] = 9\nm[\"n\"] = 1\nadd_key(dump2, m)\n"}}, 0},
 		{"map-json", []scriptSrc{{"a.p", "j = load_json(\"{\\\"a\\\": [1, 2.5]}\")\nadd_key(j)\nadd_key(k2, j[\"a\"][1])\n"}}, 0},
 	}
 	points := []pointSpec{
